@@ -19,7 +19,9 @@ from vf.gen import types as T
 P = 'C05'
 META = {
     'level': 'exploration',
-    'rule': ('every concrete XMLTypeBase/ContainerBase class of pm_types, msg_types, eventing/wsd/addressing/dpws/mex '
+    'rule': ('part tree: generated containment trees (Mds > Vmd/Sco/AlertSystem/SystemContext/Clock/Battery > ...) '
+             'reconstructed by the MDIB, schema-validated as GetMdibResponse and read back; part roundtrip: '
+             'every concrete XMLTypeBase/ContainerBase class of pm_types, msg_types, eventing/wsd/addressing/dpws/mex '
              'types and the descriptor/state containers; instances from reflection-driven hypothesis strategies '
              '(optional members present/absent by draw, lists 0-3, every enum member, xsi:type substitutions, XML-legal '
              'strings); non-trivial = at least one optional member present and one absent, or a non-empty list, or an '
@@ -175,6 +177,7 @@ def check_spec(spec):
                         {'errors': errs, 'xml': xml1.decode()[:1500]}))
     # --- read back
     parsed = etree.fromstring(xml1)
+    src_before = etree.tostring(parsed)
     try:
         y = from_xml(cls, parsed)
     except Exception as ex:  # noqa: BLE001
@@ -197,6 +200,13 @@ def check_spec(spec):
             raise
         out.append((f'{P}/rewrite-raises/{cname}/{R.exc_sig(ex)}', f'{type(ex).__name__}: {str(ex)[:500]}'))
         return out, ctx
+    # --- writing must not alter what was written before nor the document the value was read from
+    if etree.tostring(node1) != xml1:
+        out.append((f'{P}/write-changes-earlier-output/{cname}', {'first_write_now': etree.tostring(node1).decode()[:800],
+                                                                   'first_write_then': xml1.decode()[:800]}))
+    if etree.tostring(parsed) != src_before:
+        out.append((f'{P}/write-changes-source-document/{cname}', {'source_now': etree.tostring(parsed).decode()[-600:],
+                                                                    'source_then': src_before.decode()[-600:]}))
     if xml1 != xml2 and cx == cy:
         c1, c2 = C.canon_elem(_strip_clock(etree.fromstring(xml1))), C.canon_elem(_strip_clock(etree.fromstring(xml2)))
         if c1 != c2:
@@ -246,6 +256,119 @@ KNOWN_PROBES = [
 ]
 
 
+# ------------------------------------------------------------------------------------- whole containment trees
+
+def _child_slots(cls):
+    """[(child element QName, [descriptor classes], max_occurs)] for a descriptor class, in declaration order."""
+    from sdc11073.mdib import descriptorcontainers as dcm
+    from vf.gen.xsdmodel import model
+    tinfo = model().type_info(cls.NODETYPE.text)
+    slots = []
+    import inspect
+    for klass in reversed(inspect.getmro(cls)):
+        for mapping in klass.__dict__.get('_child_descriptor_name_mappings', ()):
+            classes = [dcm.get_container_class(nt) for nt in (mapping.node_types or ())]
+            classes = [c for c in classes if c is not None]
+            cinfo = tinfo.children.get(mapping.child_qname.text) if tinfo is not None else None
+            slots.append((mapping.child_qname, classes, cinfo.max_occurs if cinfo is not None else 1))
+    return slots
+
+
+def st_tree():
+    from hypothesis import strategies as st
+    from sdc11073.mdib import descriptorcontainers as dcm
+
+    @st.composite
+    def tree(draw):
+        nodes = []  # [handle, parent, spec]
+        counter = [0]
+
+        def add(cls, parent, depth):
+            handle = f'd{counter[0]}'
+            counter[0] += 1
+            spec = draw(T.instance_spec(cls))
+            spec['set'].pop('Handle', None)
+            nodes.append([handle, parent, spec])
+            if depth >= 5 or len(nodes) > 40:
+                return
+            for _qn, classes, max_occurs in _child_slots(cls):
+                if not classes:
+                    continue
+                top = 2 if max_occurs is None else min(max_occurs, 2)
+                n = draw(st.integers(0, top))
+                for _ in range(n):
+                    add(draw(st.sampled_from(classes)), handle, depth + 1)
+        for _ in range(draw(st.integers(1, 2))):
+            add(dcm.MdsDescriptorContainer, None, 0)
+        return nodes
+    return tree()
+
+
+def tree_case(ctx, nodes):
+    import logging
+
+    import sdc11073.definitions_sdc as defs
+    from sdc11073.mdib import ProviderMdib
+    from sdc11073.pysoap.msgreader import MessageReader
+    mdib = ProviderMdib()
+    descriptors, states, originals = [], [], {}
+    for handle, parent, spec in nodes:
+        d = T.build(spec)
+        d.Handle = handle
+        d.parent_handle = parent
+        descriptors.append(d)
+        originals[handle] = (parent, C.canon(d))
+        if not d.is_context_descriptor:
+            states.append(mdib.data_model.mk_state_container(d))
+    kinds = {type(d).__name__ for d in descriptors}
+    ctx.case(nodes, len(descriptors) >= 4, 'tree', classes=tuple(sorted(kinds))[:8])
+    out = []
+    mdib.add_description_containers(descriptors)
+    mdib.add_state_containers(states)
+    try:
+        node, _ = mdib.reconstruct_mdib_with_context_states()
+    except Exception as ex:  # noqa: BLE001
+        if not R.exc_in_library(ex):
+            raise
+        return [(f'{P}/tree/reconstruct-raises/{R.exc_sig(ex)}', f'{type(ex).__name__}: {str(ex)[:400]}')]
+    from sdc11073.namespaces import default_ns_helper as nsh
+    wrapper = etree.Element(nsh.MSG.tag('GetMdibResponse'), nsmap=dict(nsh.ns_map))
+    wrapper.set('MdibVersion', '0')
+    wrapper.set('SequenceId', 'urn:uuid:1')
+    wrapper.append(node)
+    xml = etree.tostring(wrapper)
+    doc = etree.fromstring(xml)
+    schema = probe_schema()
+    if not schema.validate(doc):
+        errs = [e.message for e in schema.error_log][:2]
+        out.append((f'{P}/tree/schema-invalid/{_schema_bucket(errs[0] if errs else "")}', {'errors': errs}))
+        return out
+    reader = MessageReader(defs.SdcV1Definitions, None, logging.getLogger('vf.c05'), validate=False)
+    try:
+        rd, _rs = reader.read_mdib_xml(xml)
+    except Exception as ex:  # noqa: BLE001
+        if not R.exc_in_library(ex):
+            raise
+        return [(f'{P}/tree/read-raises/{R.exc_sig(ex)}', f'{type(ex).__name__}: {str(ex)[:400]}')]
+    got = {d.Handle: (d.parent_handle, C.canon(d)) for d in rd}
+    if set(got) != set(originals):
+        out.append((f'{P}/tree/descriptors-lost', f'written {sorted(originals)}, read {sorted(got)}'))
+    else:
+        for h, (parent, cd) in originals.items():
+            if got[h][0] != parent:
+                out.append((f'{P}/tree/parent-changed', f'{h}: parent {parent} -> {got[h][0]}'))
+                break
+            if got[h][1] != cd:
+                d = C.diff(cd, got[h][1])
+                out.append((f'{P}/tree/value-changed/{cd[1]}.{_first_member(d)}', [list(map(str, x)) for x in d[:2]]))
+                break
+    return out
+
+
+def shard_tree(ctx, n):
+    R.hyp_campaign(ctx, 'tree', st_tree(), lambda nodes: tree_case(ctx, nodes), n, shrink_s=20 if ctx.tier == 'quick' else 120)
+
+
 def run(ctx):
     probe_schema()  # fail early (harness error) if the bundled schemas cannot be loaded
     for spec in KNOWN_PROBES:
@@ -266,8 +389,11 @@ def run(ctx):
     # interleave so that heavy classes spread over shards
     jobs = [(names[i::nshards], per_class) for i in range(nshards)]
     R.run_shards(ctx, __name__, 'shard_classes', jobs)
+    R.run_shards(ctx, __name__, 'shard_tree', [(12 if ctx.tier == 'quick' else 400,)] * nshards)
 
 
 def replay(part, case):
+    if part == 'tree':
+        return tree_case(R.Ctx(P, 'quick', 0, {}), case)
     found, _ = check_spec(case)
     return found
